@@ -135,6 +135,7 @@ class Contract:
         self.cls = cls
         self.may_raise_any = may_raise_any
         self.allow_implicit = tuple(allow_implicit)
+        self.locals_types = locals_types or {}
         self.notes = notes
 
 
@@ -425,9 +426,61 @@ class Ctx:
             ref, field = o
             self.heap_write(ref, field, v)
 
+    def key_sequence(self, d):
+        """Ghost key sequence of a symbolic dict in its current state: a fresh Seq KS with
+           mem(KS, y) <=> y in dom(d)   (instantiated at the elements of interest)   and   every KS[i] in dom(d)."""
+        for dom, ks in getattr(self, '_keyseqs', []):
+            if dom.eq(d.dom):
+                return ks
+        ks = self.fresh('keys', z3.SeqSort(d.ksort_()))
+        if not hasattr(self, '_keyseqs'):
+            self._keyseqs = []
+        self._keyseqs.append((d.dom, ks))
+        dom = d.dom
+        self.membership.predicate(ks, lambda y, dom=dom: z3.Select(dom, y))
+        return ks
+
+    def prefix_of(self, seq, k):
+        """(Pre, Suf) with seq == Pre.Suf and |Pre| == k, registered for decomposition alignment and membership"""
+        ks = z3.simplify(k)
+        key = ('prefix', seq.get_id(), ks.get_id())
+        if key in self.slice_cache:
+            return self.slice_cache[key]
+        self.keep.extend([seq, ks])
+        pre = self.fresh('pre', seq.sort())
+        suf = self.fresh('suf', seq.sort())
+        g = z3.And(k >= 0, k <= z3.Length(seq))
+        self.assume(z3.Implies(g, z3.And(seq == z3.Concat(pre, suf), z3.Length(pre) == k)), defines=[pre, suf])
+        self.membership.equation(seq, z3.Concat(pre, suf), g)
+        self.decomps.register(seq, pre, suf, k, g)
+        self.assume(z3.Implies(k == 0, pre == z3.Empty(seq.sort())))
+        self.membership.equation(pre, z3.Empty(seq.sort()), k == 0)
+        self.assume(z3.Implies(k == z3.Length(seq), pre == seq))
+        for y in list(self.membership.elems):
+            f = self.membership.fn(seq.sort())
+            self.assume(z3.Implies(k == z3.Length(seq), f(pre, y) == f(seq, y)))
+        self.slice_cache[key] = (pre, suf)
+        return pre, suf
+
     def new_ref(self, cls):
+        """Allocation: a fresh (negative) reference whose optional fields are None / unset - the
+        class-level defaults of the txdbus classes - and nothing else known."""
         self.new_refs += 1
-        return VRef(z3.IntVal(-self.new_refs), cls)
+        r = VRef(z3.IntVal(-self.new_refs), cls)
+        seen, stack = set(), [cls]
+        while stack:
+            c = stack.pop(0)
+            if c in seen or c not in self.world.classes:
+                continue
+            seen.add(c)
+            sp = self.world.classes[c]
+            for name, ty in sp.fields.items():
+                if isinstance(ty, Opt):
+                    self.heap_write(r, name, VNone())
+                elif name.endswith('?set'):
+                    self.heap_write(r, name, VBool(False))
+            stack.extend(sp.bases)
+        return r
 
     # ---- dict helpers (value semantic)
     def dict_has(self, d, k):
@@ -507,6 +560,7 @@ class Membership:
         self.eqs = []        # (q, rhs term)
         self.elems = []
         self.f = {}
+        self.preds = []        # (q, fn): mem(q, y) <=> fn(y) for every y (e.g. key sequence of a dict)
         self.known_tail = []   # (q, T): an assumed fact  q == [q[0]].T
         self.unique_occ = []   # (q, x, A, B): an assumed fact  x in q => q == A.[x].B, x not in A, x not in B
 
@@ -537,6 +591,14 @@ class Membership:
         self.elems.append(y)
         for q, rhs, guard in self.eqs:
             self.emit(q, rhs, guard, y)
+        for q, fn in self.preds:
+            self.ctx.assume(self.fn(q.sort())(q, y) == fn(y))
+
+    def predicate(self, q, fn):
+        """record  forall y. mem(q, y) <=> fn(y)  and instantiate it at the elements of interest"""
+        self.preds.append((q, fn))
+        for y in self.elems:
+            self.ctx.assume(self.fn(q.sort())(q, y) == fn(y))
 
     def equation(self, q, rhs, guard=None):
         """record  q == rhs  (already assumed by the caller, under guard) and instantiate membership at known elements"""
@@ -571,6 +633,16 @@ class Decomps:
             if e[0].eq(whole) and self.same(e[3], cut) and not (e[1].eq(left) and e[2].eq(right)):
                 names = [x for x in (e[1], e[2], left, right) if z3.is_const(x)]
                 self.ctx.assume(z3.Implies(z3.And(e[4], guard), z3.And(e[1] == left, e[2] == right)), defines=names)
+            elif e[0].eq(whole) and (self.same(cut - 1, e[3]) or self.same(e[3] - 1, cut)):
+                # adjacent cuts: the longer prefix is the shorter one plus the element in between
+                (l1, r1, c1), (l2, r2, c2) = ((e[1], e[2], e[3]), (left, right, cut)) if self.same(cut - 1, e[3]) else ((left, right, cut), (e[1], e[2], e[3]))
+                mid = z3.Unit(whole[c1])
+                names = [x for x in (l1, r1, l2, r2) if z3.is_const(x)]
+                self.ctx.assume(z3.Implies(z3.And(e[4], guard, c1 >= 0, c2 <= z3.Length(whole)),
+                                           z3.And(l2 == z3.Concat(l1, mid), r1 == z3.Concat(mid, r2))), defines=names)
+                M = self.ctx.membership
+                M.equation(l2, z3.Concat(l1, mid), z3.And(e[4], guard, c1 >= 0, c2 <= z3.Length(whole)))
+                M.equation(r1, z3.Concat(mid, r2), z3.And(e[4], guard, c1 >= 0, c2 <= z3.Length(whole)))
         self.entries.append(new)
         if not derive:
             return
